@@ -14,6 +14,15 @@ T = {
     "C01": (True, "exploration", "icontract postconditions on every Model entry point vs independent reference evaluator",
             "Every number returned by __call__/get_right_hand_side/get_fluxes/get_args/time-course forms/get_stoichiometries on generated models (incl. the states an integrator visits) is compared with an independent evaluator; held on the models and states observed, not a proof.",
             "Trusted: mon/refmodel.py evaluator, mon/fnlib functions, icontract wrapping of class attributes."),
+    "C02": (True, "exploration", "graph-classification oracle + reference values over exhaustive small graphs x all declaration orders and sampled mixed graphs; sys.monitoring loop-iteration counter as termination monitor",
+            "All dependency graphs on <=2 (quick) / <=3 (thorough) derived nodes are enumerated with every declaration order; larger mixed-kind graphs with injected self-loops, cycles and missing names are sampled. Exception type, the names reported, values and the retry loop's iteration count are observed on every build.",
+            "Trusted: own DFS classification (mon/refmodel.classify_graph), reference evaluator; message parsing accepts any format that quotes exactly the missing names and mentions the offending components."),
+    "C03": (True, "exploration", "history checker: sequential specification (mirror) + freshly built model + reference evaluator compared on the full observable set after every edit",
+            "Random and enumerated (query, mutator, query) histories over every public mutator with hostile arguments; after each step the edited model must answer every query like a model freshly built from the mirror content, and a rejected edit must change nothing.",
+            "Trusted: the mirror's edit semantics (duplicates/time/unknown rejected, otherwise accepted, new components appended), mon/refmodel. Plural edits only with all-valid or first-invalid items."),
+    "C13": (True, "exploration", "two-phase reference semantics vs get_initial_conditions / Simulator.y0 / argument table / classification, with icontract postconditions on Model entry points",
+            "IA-heavy generated models: initial conditions, assignment-defined parameters, derived-parameter classification, frozen-vs-recomputed values at random (state,time) and the first row of a simulation are compared with the reference; sensitivity guard counts only cases where a wrong phase would change a number.",
+            "Trusted: mon/refmodel two-phase evaluator; functions non-constant in each argument."),
 }
 PENDING_REASON = "check not built yet in this session (work in progress; design in DESIGN.md section 4)"
 
